@@ -206,6 +206,15 @@ Definition ibig_mul_asis (s0 : sign) (x : trepr) (s1 : sign) (y : trepr) : resul
   | Panic p => Panic p | Err e => Err e | OutOfFuel => OutOfFuel
   end.
 
+(** UBig::cubic / IBig::cubic: self * self.sqr() *)
+Definition ubig_cubic_asis (x : trepr) : result trepr :=
+  match repr_sqr x with Ok q => repr_mul x q | e => e end.
+Definition ibig_cubic_asis (s : sign) (x : trepr) : result (sign * trepr) :=
+  match repr_sqr x with
+  | Ok q => ibig_mul_asis s x Positive q
+  | Panic p => Panic p | Err e => Err e | OutOfFuel => OutOfFuel
+  end.
+
 (** ------------------------------------------------------------------ pow.rs *)
 (** math::max_exp_in_word: the largest k with base^k < B, and base^k; [fuel] bounds the loop *)
 Fixpoint max_exp_loop (fuel : nat) (base e p : Z) : result (Z * Z) :=
